@@ -15,7 +15,7 @@ inductive Err where
   | overflowError | indexError | keyError | typeError | attributeError
   | assertionError | notImplemented | bareException | unicodeError
   | unexpectedDER | malformedPoint | malformedSignature | unknownCurve | badSignature
-  | invalidCurve | invalidSharedSecret | noKey
+  | invalidCurve | invalidSharedSecret | noKey | rsZero | badDigest
   | outOfFuel     -- not a Python exception: a fuel-bounded model loop ran out of fuel (proved unreachable, C14)
   deriving DecidableEq, Repr, Inhabited
 
@@ -36,6 +36,7 @@ def Err.name : Err → String
   | .malformedSignature => "MalformedSignature" | .unknownCurve => "UnknownCurveError"
   | .badSignature => "BadSignatureError" | .invalidCurve => "InvalidCurveError"
   | .invalidSharedSecret => "InvalidSharedSecretError" | .noKey => "NoKeyError"
+  | .rsZero => "RSZeroError" | .badDigest => "BadDigestError"
   | .outOfFuel => "OutOfFuel(model)"
 
 /-- big-endian, fixed width (`int.to_bytes(k,"big")` without the overflow check) -/
